@@ -100,6 +100,9 @@ CFG = {
             "classes *-edge count cases with a selected node ON an edge), a separate stream with dangling references; each document with KeepBounds, a KeepTags "
             "variant and KeepAll; the Spec side judges against closure(doc, documented selector of the keep function), not the model's keep; per case one GOMAXPROCS=1 extraction, 6-48 extractions steered through the wrapped KeepFunc (sleep/Gosched before or after the "
             "real keep call on seeded object ids) under GOMAXPROCS in {2,3,4,16}, and for tags/all Filter x4 and Filter-of-Filter x4. "
+            "plus DEEP CHAINS of nested relations (depth 33, 40, 64; thorough also 100; innermost-first and outermost-first, selected only through the outermost "
+            "relation or only through the innermost node; the model's pass count, up to |doc|+2, is compared exactly) and documents with <bounds>/<note>/<user> "
+            "elements (1, 2, 4, 16 of them, at the start of the file or scattered) run under GOMAXPROCS 1 and {2,3,4,16} with an 8 s watchdog (a hang is a SPEC failure); "
             "plus HISTORY cases (2-3 extractions with different keep functions on ONE bytes.Reader that initially stands at 0 / the middle / EOF, "
             "each extraction judged by the Spec for its own keep function) and CANCEL cases (the ReadSeeker cancels the context on its n-th rewind, n=1..4: "
             "Spec = a non-nil error OR exactly the closure, model = error iff the extraction needs >= n passes). "
